@@ -3,6 +3,7 @@ package main
 import (
 	"fmt"
 	"go/types"
+	"strings"
 
 	"golang.org/x/tools/go/ssa"
 )
@@ -42,6 +43,7 @@ func VerifyLemma(C *Contracts, lm *Lemma) (obs []*Obligation, errs string) {
 		}
 		return env
 	}
+	e.assumeLemmas(lm.Uses)
 	env := mkEnv("", "")
 	for _, r := range lm.Requires {
 		e.ctx.Assume(e.evalBool(r.Expr, env))
@@ -76,4 +78,79 @@ func VerifyLemma(C *Contracts, lm *Lemma) (obs []*Obligation, errs string) {
 	o.Expect = "sat"
 	_ = types.Typ
 	return e.obs, ""
+}
+
+// lemmaAxiom renders a (separately proved) lemma as a universally quantified hypothesis.
+func (e *Engine) lemmaAxiom(name string) string {
+	var lm *Lemma
+	for _, l := range e.contracts.Lemmas {
+		if l.Name == name {
+			lm = l
+		}
+	}
+	if lm == nil {
+		cerr("uses: unknown lemma %s", name)
+	}
+	env := &Env{e: e, bound: map[string]Val{}, names: map[string]Val{}, pure: true, curFunc: "lemma " + lm.Name}
+	var vars []string
+	for _, p := range lm.Params {
+		q := "L_" + lm.Name + "_" + p.Name
+		switch p.Type {
+		case "seq":
+			vars = append(vars, fmt.Sprintf("(%s.arr (Array Int Int)) (%s.off Int) (%s.len Int)", q, q, q))
+			env.bound[p.Name] = Val{K: KSeq, Fs: []Val{scalar(q+".arr", "(Array Int Int)"), intv(q + ".off"), intv(q + ".len")}}
+		default:
+			vars = append(vars, fmt.Sprintf("(%s %s)", q, specSort(p.Type)))
+			env.bound[p.Name] = Val{K: KScalar, T: q, Sort: specSort(p.Type)}
+		}
+	}
+	var pre, post []string
+	for _, r := range lm.Requires {
+		pre = append(pre, e.evalBool(r.Expr, env))
+	}
+	for _, en := range lm.Ensures {
+		post = append(post, e.evalBool(en.Expr, env))
+	}
+	return fmt.Sprintf("(forall (%s) %s)", strings.Join(vars, " "), implies(and(pre...), and(post...)))
+}
+
+func (e *Engine) assumeLemmas(names []string) {
+	for _, n := range names {
+		e.ctx.Assume(e.lemmaAxiom(n))
+		e.note("lemma " + n + " used as a hypothesis (proved separately)")
+	}
+}
+
+// applyLemma assumes one instance of a (separately proved) lemma in state st.
+func (e *Engine) applyLemma(env *Env, st *State, cl Clause) {
+	call := cl.Expr.(ECall)
+	var lm *Lemma
+	for _, l := range e.contracts.Lemmas {
+		if l.Name == call.Fn {
+			lm = l
+		}
+	}
+	if lm == nil {
+		cerr("apply: unknown lemma %s", call.Fn)
+	}
+	if len(call.Args) != len(lm.Params) {
+		cerr("apply %s: expected %d arguments", lm.Name, len(lm.Params))
+	}
+	inst := &Env{e: e, st: st, bound: map[string]Val{}, names: map[string]Val{}, pure: true, curFunc: "lemma " + lm.Name}
+	for i, p := range lm.Params {
+		v := env.eval(call.Args[i])
+		if p.Type == "seq" {
+			v = env.toSeq(v)
+		}
+		inst.bound[p.Name] = v
+	}
+	var pre, post []string
+	for _, r := range lm.Requires {
+		pre = append(pre, e.evalBool(r.Expr, inst))
+	}
+	for _, en := range lm.Ensures {
+		post = append(post, e.evalBool(en.Expr, inst))
+	}
+	e.ctx.Assume(implies(and(append([]string{st.pc}, pre...)...), and(post...)))
+	e.note("lemma " + lm.Name + " instantiated (proved separately)")
 }
